@@ -119,7 +119,7 @@ def savePdb (lvl : Strictness) (p : PDB) (m : WMeta) : List (List Char) :=
     match dbOf gi with
     | none => []
     | some d =>
-      if d.acc.length > 8 || d.id.length > 12 || d.dbPos.start > 999999 || d.dbPos.stop > 999999 then
+      if d.acc.length > 8 || d.id.length > 12 || d.dbPos.start > 99999 || d.dbPos.stop > 99999 then
         [pl [(6, S "DBREF1"), (0, S " "), (4, idTxt), (0, S " "), (1, S ch.id), (0, S " "), (4, intText d.pdbPos.start),
              (1, optS d.pdbPos.startIns), (0, S " "), (4, intText d.pdbPos.stop), (1, optS d.pdbPos.stopIns), (0, S " "),
              (6, S d.db), (0, S "               "), (20, S d.id)],
